@@ -94,4 +94,9 @@ pub assume_specification<T: core::cmp::Ord + core::marker::Destruct> [std::cmp::
 pub assume_specification<T: core::cmp::Ord + core::marker::Destruct> [std::cmp::min] (a: T, b: T) -> (r: T)
     ensures r == (if vstd::std_specs::cmp::OrdSpec::cmp_spec(&a, &b) == core::cmp::Ordering::Greater { b } else { a });
 
+
+/// `Vec::into_boxed_slice` keeps the elements (T-std)
+pub assume_specification<T, A: std::alloc::Allocator> [std::vec::Vec::<T, A>::into_boxed_slice] (v: std::vec::Vec<T, A>) -> (r: std::boxed::Box<[T], A>)
+    ensures r@ == v@;
+
 } // verus!
